@@ -1,6 +1,7 @@
 import HmcVerif.Exec.C01
 import HmcVerif.Exec.C02
 import HmcVerif.Exec.C03
+import HmcVerif.Exec.C10
 import HmcVerif.Exec.C19
 open HmcVerif
 
@@ -15,6 +16,9 @@ def dispatch (cmd : String) : Option (P String) :=
   | "c02.autotune" => some C02.autotune
   | "c03.mass" => some C03.mass
   | "c03.bfgs" => some C03.bfgs
+  | "c10.store" => some C10.store
+  | "c10.read" => some C10.read
+  | "c10.combine" => some C10.comb
   | "c16.tunerun" => some C02.tunerun
   | "c16.lrok" => some C02.lrok
   | "c19.gd" => some C19.gd
